@@ -93,3 +93,38 @@ def tcpconn(case, model):
     ns = {'self': View(o)}
     ns.update({k: (v.tobytes() if isinstance(v, memoryview) else v) for k, v in args.items()})
     return {'call': lambda: getattr(o, meth)(**args), 'ns': ns, 'env': env}
+
+
+def wsframe(case, model):
+    """WebsocketFrame.build / parse / apply_mask"""
+    from proxy.http.websocket.frame import WebsocketFrame
+    meth = case['qualname'].split('.')[1]
+    env = Env(case['env'])
+
+    def opt(name, conv=lambda x: x):
+        return None if model.get(name + '?none', False) else conv(model.get(name))
+    if meth == 'apply_mask':
+        data, mask = bytes(model.get('data', b'')), bytes(model.get('mask', b'\0\0\0\0'))
+        return {'call': lambda: WebsocketFrame.apply_mask(data, mask), 'ns': {'data': data, 'mask': mask}, 'env': None}
+    f = WebsocketFrame()
+    for fld in ('fin', 'rsv1', 'rsv2', 'rsv3', 'masked'):
+        setattr(f, fld, bool(model.get('self.' + fld, False)))
+    f.opcode = model.get('self.opcode', 0)
+    f.payload_length = opt('self.payload_length')
+    f.mask = opt('self.mask', bytes)
+    f.data = opt('self.data', bytes)
+    ns = {'self': View(f)}
+    if meth == 'build':
+        return {'call': f.build, 'ns': ns, 'env': None}
+    if meth == 'parse':
+        g = {k: model.get(k) for k in ('g_fin', 'g_r1', 'g_r2', 'g_r3', 'g_op', 'g_masked', 'g_key', 'g_payload', 'g_tail')}
+        for k in ('g_key', 'g_payload', 'g_tail'):
+            g[k] = bytes(g[k] or b'')
+        for k in ('g_fin', 'g_r1', 'g_r2', 'g_r3', 'g_masked'):
+            g[k] = bool(g[k])
+        g['g_op'] = g['g_op'] or 0
+        raw = bytes(model.get('raw', b''))
+        ns.update(g)
+        ns['raw'] = raw
+        return {'call': lambda: f.parse(raw), 'ns': ns, 'env': None}
+    raise KeyError(meth)
